@@ -41,17 +41,17 @@ Value& REPLACEExpression::value(Context & ctx) const
     switch (a1.type().major())
     {
     case Type::NO_TYPE:
-      return val;
+      return (val.lvalue() ? ctx.allocate(val.clone()) : val);
     case Type::LITERAL:
       /* nothing to search for: a null or an empty string matches nowhere */
       if (a1.isNull() || a1.literal()->empty())
-        return val;
+        return (val.lvalue() ? ctx.allocate(val.clone()) : val);
       break;
     default:
       throw RuntimeError(EXC_RT_FUNC_ARG_TYPE_S, KEYWORDS[oper]);
     }
     if (val.isNull())
-      return val;
+      return (val.lvalue() ? ctx.allocate(val.clone()) : val);
     Value& a2 = _args[2]->value(ctx);
     switch (a2.type().major())
     {
